@@ -1,6 +1,6 @@
 (* C02 — decoding is total: arbitrary bytes give a value or an error, never a panic.
    Statements only. *)
-From Zvt Require Import Base Length Cp437 Encoding EncodingProps Codec Lookup CodecTotal CodecSize GenCheck DateTimeProps LegacyCodec.
+From Zvt Require Import Base Length Cp437 Encoding EncodingProps Codec Lookup CodecTotal CodecSize GenCheck DateTimeProps LegacyCodec Client NestedFinding.
 From Zvt.gen Require Import Layouts Tables.
 Open Scope N_scope.
 
@@ -80,6 +80,15 @@ Proof. exact no_unrecognised. Qed.
 Example C02_ex_tables : (50 <= length structs)%nat /\ (15 <= length enums)%nat.
 Proof. split; vm_compute; lia. Qed.
 
+(* OPEN KNOWN FINDING (DESIGN 16.2, known_findings.json): "a number that does not fit its field is an error" is REFUTED for a binary
+   integer under a BER-TLV length announcing more bytes than the field is wide: 1A 03 01 00 00 into the u16 of the registration
+   container is read as 256 from its first two bytes, the third is handed back to the enclosing loop (no wrap, no panic, the
+   same in debug and release — but not an error) *)
+Theorem C02_refuted_for_wide_integers :
+  fst (match run_dec "zvt::packets::tlv::Registration" [26; 3; 1; 0; 0] with
+       | Some x => x | None => (Err NonImplemented, Err NonImplemented) end) = Ok (VRec [VSome (VInt 256)], [0]).
+Proof. exact wide_integer_witness. Qed.
+
 Print Assumptions C02_dec_never_panics.
 Print Assumptions C02_fuel_sufficient.
 Print Assumptions C02_shipped_packets_total.
@@ -92,3 +101,4 @@ Print Assumptions C02_shipped_packets_allocation.
 Print Assumptions C02_shipped_parsers_allocation.
 Print Assumptions C02_datetime_is_what_the_digits_spell.
 Print Assumptions C02_F8_refuted_then_repaired.
+Print Assumptions C02_refuted_for_wide_integers.
